@@ -3,7 +3,7 @@
 # passes without) and the test suite with the change, in a scratch worktree that is removed afterwards
 set -u
 pid=$1; tag=${2:-a}
-src=/tmp/wt_$pid/_seed
+src=${3:-/tmp/wt_$pid}/_seed
 dst=/verif/seeded/$pid-$tag
 mkdir -p $dst
 cp $src/patch.diff $src/demo.py $dst/ ; cp $src/notes.md $dst/notes.md 2>/dev/null
